@@ -345,7 +345,15 @@ impl<'a> GeneratorState<'a> {
     fn generate_deref(&mut self, expr: &Expr, pos: usize) -> Result<ExprType, Error> {
         match expr {
             Expr::Identifier(var, sub) => {
-                let v = self.compiler_state.get_variable(var);
+                // X and Y are not variables
+                let v = match self.compiler_state.variables.get(var) {
+                    Some(v) => v,
+                    None => {
+                        return Err(self
+                            .compiler_state
+                            .syntax_error("Deref on something else than a pointer", pos))
+                    }
+                };
                 if v.var_type == VariableType::CharPtr {
                     let sub_output = self.generate_expr(sub, pos, false, false)?;
                     match sub_output {
@@ -529,8 +537,15 @@ impl<'a> GeneratorState<'a> {
                             if let Expr::Integer(8) = *rhs2 {
                                 if let Expr::Identifier(var, sub) = *lhs2 {
                                     if let Expr::Nothing = *sub {
-                                        let v = self.compiler_state.get_variable(var.as_str());
-                                        if v.var_type == VariableType::CharPtr && v.var_const {
+                                        // X and Y are not variables
+                                        let is_const_ptr = self
+                                            .compiler_state
+                                            .variables
+                                            .get(var.as_str())
+                                            .map_or(false, |v| {
+                                                v.var_type == VariableType::CharPtr && v.var_const
+                                            });
+                                        if is_const_ptr {
                                             if self.acc_in_use {
                                                 self.sasm(PHA)?;
                                             }
@@ -578,8 +593,15 @@ impl<'a> GeneratorState<'a> {
                             if let Expr::Integer(8) = *rhs2 {
                                 if let Expr::Identifier(var, sub) = *lhs2 {
                                     if let Expr::Nothing = *sub {
-                                        let v = self.compiler_state.get_variable(var.as_str());
-                                        if v.var_type == VariableType::CharPtr && v.var_const {
+                                        // X and Y are not variables
+                                        let is_const_ptr = self
+                                            .compiler_state
+                                            .variables
+                                            .get(var.as_str())
+                                            .map_or(false, |v| {
+                                                v.var_type == VariableType::CharPtr && v.var_const
+                                            });
+                                        if is_const_ptr {
                                             if self.acc_in_use {
                                                 self.sasm(PHA)?;
                                             }
